@@ -446,7 +446,7 @@ class SdrFullSensorRecord(SdrCommon):
         acc_accexp = buffer.pop_unsigned_int(1)
         self.b = (b & 0xff) | ((b_acc & 0xc0) << 2)
         self.b = self._convert_complement(self.b, 10)
-        self.accuracy = (b_acc & 0x3f) | ((acc_accexp & 0xf0) << 4)
+        self.accuracy = (b_acc & 0x3f) | ((acc_accexp & 0xf0) << 2)
         self.accuracy_exp = (acc_accexp & 0x0c) >> 2
         # byte 30
         rexp_bexp = buffer.pop_unsigned_int(1)
